@@ -1,11 +1,14 @@
 // C07 correspondence harness: the DA-included ("final") height.
 // Drives a REAL block.Manager (NewManager on a real pkg/store over a recording datastore) through random
 // interleavings of block production / sync, header and data submission against a scripted DA double
-// (aggregator variant: the real submitHeadersToDA / submitDataToDA produce the marks) or DA scanning
-// (full-node variant: the real processNextDAHeaderAndData -> handlePotentialHeader/Data produce the
-// marks under scripted DA fetch faults, the real SyncLoop applies what the scan found), runs of the real
-// DAIncluderLoop under testing/synctest, crashes after k effects of such a run, and clean restarts (SaveCache,
-// NewManager).  Writes cases_C07.v (for Model/Includer.v; full-node cases: Model/IncluderScan.v) and result.json.
+// (aggregator variant: the real submitHeadersToDA / submitDataToDA produce the marks; the DA double answers each
+// call with ids+nil, with an error of some class, or with ids AND an error, and keeps what the script says, which
+// need not be what it answered) or DA scanning (full-node variant: the real processNextDAHeaderAndData ->
+// handlePotentialHeader/Data produce the marks under scripted DA fetch faults, the real SyncLoop applies what the
+// scan found), runs of the real DAIncluderLoop under testing/synctest, crashes after k effects of such a run, and
+// clean restarts (the real SaveCache, NewManager -> LoadCache) under a small set of RootDir / DBPath configurations.
+// Writes cases_C07.v (for Model/Includer.v; full-node cases: Model/IncluderScan.v; aggregator cases:
+// Model/IncluderAgg.v) and result.json.
 package c07
 
 import (
@@ -61,27 +64,63 @@ type Replay struct {
 	Case    int    `json:"case"`
 	Mode    string `json:"mode"` // agg full
 	IH      uint64 `json:"ih,omitempty"` // genesis.InitialHeight (0 = 1)
+	Cfg     int    `json:"cfg,omitempty"` // index into dirConfigs: config.RootDir / config.DBPath of the node under test
 	History []Op   `json:"history"`
+}
+
+// dirConfigs: the directory configurations the node under test runs with (RootDir below the case's scratch
+// directory, DBPath as the operator would write it in the configuration).  0 is the default configuration.
+var dirConfigs = []struct{ Root, DB string }{
+	{"node", "data"},
+	{"node", "custom"},
+	{"node", ""},
+	{"n d/x", "db/sub"},
+	{"data", "data/db"},
+	{"node", "/abs/db"},
+	{"r1/../node2", "../sibling"},
+	{"deep/er/root", "data2"},
+}
+
+func genCfg(r *rand.Rand) int {
+	if r.Intn(100) < 35 {
+		return 0
+	}
+	return 1 + r.Intn(len(dirConfigs)-1)
 }
 
 var txPool = [][][]byte{nil, {[]byte("a1")}, {[]byte("b1"), []byte("b2")}, {[]byte("c1")}}
 
 func genScript(r *rand.Rand) []Outcome {
 	n := 0
-	switch x := r.Intn(10); {
-	case x < 5:
+	switch x := r.Intn(100); {
+	case x < 45:
 		n = 0
-	case x < 8:
+	case x < 78:
 		n = 1
-	default:
+	case x < 99:
 		n = 2 + r.Intn(3)
+	default: // the DA layer fails for longer than submitToDA tries (maxSubmitAttempts = 30)
+		n = 30 + r.Intn(3)
 	}
-	kinds := []string{"part", "part", "err", "timeout", "mempool", "toobig", "acklost", "ok"}
+	kinds := []string{"part", "part", "err", "err", "timeout", "mempool", "toobig", "deadline", "cancel", "ok"}
 	var s []Outcome
 	for i := 0; i < n; i++ {
 		o := Outcome{Kind: kinds[r.Intn(len(kinds))]}
+		if n >= 30 {
+			o.Kind = "err"
+		}
 		if o.Kind == "part" {
 			o.K = r.Intn(3)
+		}
+		if o.isErr() {
+			// an error answer may come with ids (of blobs taken before the failure, or of nothing at all), and the DA
+			// layer may have kept blobs although it answered with an error
+			if r.Intn(3) == 0 {
+				o.Ids = 1 + r.Intn(3)
+			}
+			if r.Intn(4) == 0 {
+				o.St = 1 + r.Intn(3)
+			}
 		}
 		s = append(s, o)
 	}
@@ -194,6 +233,7 @@ var logger = logging.Logger("c07")
 
 type node struct {
 	mode    string
+	scratch string // the case's scratch directory (RootDir lies below it)
 	cfg     config.Config
 	gen     genesis.Genesis
 	sg      signer.Signer
@@ -221,16 +261,39 @@ func (n *node) boot(ctx context.Context) error {
 	return nil
 }
 
-func newNode(ctx context.Context, mode string, sg signer.Signer, gen genesis.Genesis, root string, release chan struct{}) (*node, error) {
+func newNode(ctx context.Context, mode string, sg signer.Signer, gen genesis.Genesis, scratch string, dc int, release chan struct{}) (*node, error) {
 	cfg := config.DefaultConfig
-	cfg.RootDir = root
+	cfg.RootDir = scratch + string(filepath.Separator) + dirConfigs[dc].Root // as the operator wrote it: not cleaned
+	cfg.DBPath = dirConfigs[dc].DB
 	cfg.Node.MaxPendingHeadersAndData = 0
 	cfg.Node.Aggregator = mode == "agg"
-	n := &node{mode: mode, cfg: cfg, gen: gen, cds: crashds.New(), w: &world{}, release: release, seq: &seqDouble{}, da: newDA()}
+	n := &node{mode: mode, scratch: scratch, cfg: cfg, gen: gen, cds: crashds.New(), w: &world{}, release: release, seq: &seqDouble{}, da: newDA()}
 	if mode == "agg" {
 		n.sg = sg
 	}
 	return n, n.boot(ctx)
+}
+
+// cacheDirs: the directories, relative to the node's RootDir, that hold cache files (<dir>/cache/header/...).
+func (n *node) cacheDirs() string {
+	var out []string
+	root := filepath.Clean(n.cfg.RootDir)
+	_ = filepath.WalkDir(n.scratch, func(p string, d os.DirEntry, err error) error {
+		if err != nil || !d.IsDir() || d.Name() != "cache" {
+			return nil
+		}
+		if fi, e := os.Stat(filepath.Join(p, "header")); e != nil || !fi.IsDir() {
+			return nil
+		}
+		rel, e := filepath.Rel(root, filepath.Dir(p))
+		if e != nil {
+			rel = p
+		}
+		out = append(out, filepath.ToSlash(rel))
+		return filepath.SkipDir
+	})
+	sort.Strings(out)
+	return strings.Join(out, "|")
 }
 
 // ---- decoding blobs independently of the manager --------------------------------------------------
@@ -283,6 +346,11 @@ type caseRun struct {
 	commitID map[string]uint64 // data commitment -> tx list id
 	txOf     []int             // tx list id per height of the node under test
 	groups   []string
+	agroups  []string    // aggregator: the operations as groups of Model/IncluderAgg.v items
+	aobs     [][3]uint64 // aggregator, after each operation: last-submitted header height, data height, DA tip
+	saved    []string    // per SaveCache: where the cache files are afterwards (relative to RootDir)
+	bmarks   []string    // per new process: the cache lookups (header marks, data marks)
+	dc       int         // index into dirConfigs
 	fgroups  []string   // full node: the operations as groups of Model/IncluderScan.v items
 	fobs     [][2]uint64 // full node, after each operation: m.daHeight, State.DAHeight in the store
 	obs      []obsRec
@@ -553,9 +621,75 @@ func (c *caseRun) liveMarkSets() (map[string]bool, map[string]bool) {
 	return hs, dsx
 }
 
+// liveMarks: the DA-included marks of the running process that concern stored blocks: header hash / data
+// commitment -> marked DA height.
+type markSet struct{ h, d map[string]uint64 }
+
+func (c *caseRun) liveMarks() markSet {
+	ms := markSet{map[string]uint64{}, map[string]uint64{}}
+	sh, _ := c.nd.m.GetStoreHeight(c.ctx)
+	for h := uint64(1); h <= sh; h++ {
+		hd, d, err := c.nd.st.GetBlockData(c.ctx, h)
+		if err != nil {
+			continue
+		}
+		if v, ok := c.nd.m.HeaderCache().GetDAIncludedHeight(hd.Hash().String()); ok {
+			ms.h[hd.Hash().String()] = v
+		}
+		if v, ok := c.nd.m.DataCache().GetDAIncludedHeight(d.DACommitment().String()); ok {
+			ms.d[d.DACommitment().String()] = v
+		}
+	}
+	return ms
+}
+
+// checkMarksKept (Go oracle): after a clean stop + start every mark that was set is still set, at the same DA height.
+func (c *caseRun) checkMarksKept(before markSet, how string) {
+	after := c.liveMarks()
+	lost := 0
+	for k, v := range before.h {
+		if w, ok := after.h[k]; !ok || w != v {
+			lost++
+		}
+	}
+	for k, v := range before.d {
+		if w, ok := after.d[k]; !ok || w != v {
+			lost++
+		}
+	}
+	if lost > 0 {
+		c.fail("clean-restart-loses-da-marks", fmt.Sprintf("%d of the %d DA-included marks set before %s (SaveCache, then NewManager/LoadCache; RootDir %q, DBPath %q) are not set in the new process",
+			lost, len(before.h)+len(before.d), how, dirConfigs[c.dc].Root, dirConfigs[c.dc].DB))
+	}
+}
+
+// markLookups: what the caches answer for the header hash of every stored block / every data commitment of the pool.
+func (c *caseRun) markLookups() (hm, dm []string) {
+	sh, _ := c.nd.m.GetStoreHeight(c.ctx)
+	for h := uint64(1); h <= sh; h++ {
+		hd, _, err := c.nd.st.GetBlockData(c.ctx, h)
+		if err != nil {
+			continue
+		}
+		v, ok := c.nd.m.HeaderCache().GetDAIncludedHeight(hd.Hash().String())
+		hm = append(hm, fmt.Sprintf("(%d, %s)", h, optN(v, ok)))
+	}
+	for i := range txPool {
+		v, ok := c.nd.m.DataCache().GetDAIncludedHeight(commitOf(i))
+		dm = append(dm, fmt.Sprintf("(%d, %s)", i, optN(v, ok)))
+	}
+	return
+}
+
+// noteBoot: a new process has started: record what its caches hold.
+func (c *caseRun) noteBoot() {
+	hm, dm := c.markLookups()
+	c.bmarks = append(c.bmarks, fmt.Sprintf("(%s, %s)", vgen.List(hm), vgen.List(dm)))
+}
+
 func (c *caseRun) exec(op Op) {
 	n := c.nd
-	var items, fitems []string // the operation in items of Model/Includer.v (aggregator) / Model/IncluderScan.v (full node)
+	var items, fitems, aitems []string // the operation in items of Model/Includer.v (aggregator: as the harness derives the marks from the DA double's record) / Model/IncluderScan.v (full node) / Model/IncluderAgg.v (aggregator)
 	switch op.K {
 	case "append":
 		if c.mode == "agg" {
@@ -578,6 +712,7 @@ func (c *caseRun) exec(op Op) {
 			c.hashID[hd.Hash().String()] = h
 			c.txOf = append(c.txOf, int(tx))
 			items = append(items, item("IAppend (B %d %d)", h, tx))
+			aitems = append(aitems, item("AAppend (B %d %d)", h, tx))
 		} else {
 			if c.synced == c.ih-1+uint64(len(c.srcTx)) {
 				if err := c.produce(op.Tx); err != nil {
@@ -640,6 +775,11 @@ func (c *caseRun) exec(op Op) {
 				items = append(items, c.marksOf(call.Blobs[:call.Accepted], call.Height)...)
 			}
 		}
+		var ans []string
+		for _, o := range op.Script {
+			ans = append(ans, o.coq())
+		}
+		aitems = append(aitems, map[string]string{"subh": "ASubH ", "subd": "ASubD "}[op.K]+vgen.List(ans))
 	case "post":
 		var blobs [][]byte
 		for _, b := range op.Blobs {
@@ -705,6 +845,7 @@ func (c *caseRun) exec(op Op) {
 		c.runLoop(-1, false)
 		items = append(items, "IInclude")
 		fitems = append(fitems, "FInclude")
+		aitems = append(aitems, "AInclude")
 	case "crash":
 		// marks that exist only in memory and belong to blocks not yet included are lost by this crash
 		if c.mode == "agg" {
@@ -731,12 +872,15 @@ func (c *caseRun) exec(op Op) {
 			return
 		}
 		c.checkAfterDeath(seen, "reported-height-decreases-across-crash", "at the instant of its death")
+		c.noteBoot()
 		items = append(items, item("ICrash %d%%nat", modelK(op.Kc)))
 		fitems = append(fitems, item("FCrash %d%%nat", modelK(op.Kc)))
+		aitems = append(aitems, item("ACrash %d%%nat", modelK(op.Kc)))
 	case "fault":
 		// effect Kc+1 of the run fails; the loop reports the error, the node shuts down cleanly and is started again
 		seen := c.runLoop(op.Kc, true)
 		c.savedH, c.savedD = c.liveMarkSets()
+		before := c.liveMarks()
 		n.bud.arm(-1, false)
 		n.bud.mu.Lock()
 		n.bud.dead = false
@@ -745,6 +889,7 @@ func (c *caseRun) exec(op Op) {
 			c.harnessE = err
 			return
 		}
+		c.saved = append(c.saved, n.cacheDirs())
 		n.bud.kill()
 		n.w.add(effRec{Kind: "boot"})
 		if err := n.boot(c.ctx); err != nil {
@@ -753,14 +898,19 @@ func (c *caseRun) exec(op Op) {
 			return
 		}
 		c.checkAfterDeath(seen, "reported-height-decreases-after-write-fault", "while alive, after a failed effect")
+		c.checkMarksKept(before, "a failing effect of the includer")
+		c.noteBoot()
 		items = append(items, item("IFault %d%%nat", modelK(op.Kc)))
 		fitems = append(fitems, item("FFault %d%%nat", modelK(op.Kc)))
+		aitems = append(aitems, item("AFault %d%%nat", modelK(op.Kc)))
 	case "restart":
 		c.savedH, c.savedD = c.liveMarkSets()
+		before := c.liveMarks()
 		if err := n.m.SaveCache(); err != nil {
 			c.harnessE = err
 			return
 		}
+		c.saved = append(c.saved, n.cacheDirs())
 		n.bud.kill()
 		n.w.add(effRec{Kind: "boot"})
 		if err := n.boot(c.ctx); err != nil {
@@ -768,8 +918,11 @@ func (c *caseRun) exec(op Op) {
 			c.harnessE = err
 			return
 		}
+		c.checkMarksKept(before, "a clean shutdown")
+		c.noteBoot()
 		items = append(items, "IRestart")
 		fitems = append(fitems, "FRestart")
+		aitems = append(aitems, "ARestart")
 	default:
 		c.harnessE = fmt.Errorf("bad op %q", op.K)
 		return
@@ -789,6 +942,11 @@ func (c *caseRun) exec(op Op) {
 		c.fobs = append(c.fobs, [2]uint64{c.nd.m.VerifDAHeight(), st.DAHeight})
 	} else {
 		c.groups = append(c.groups, vgen.List(items))
+		c.agroups = append(c.agroups, vgen.List(aitems))
+		c.nd.da.mu.Lock()
+		top := c.nd.da.top
+		c.nd.da.mu.Unlock()
+		c.aobs = append(c.aobs, [3]uint64{c.nd.m.VerifLastSubmittedHeaderHeight(), c.nd.m.VerifLastSubmittedDataHeight(), top})
 	}
 	di := c.nd.m.GetDAIncludedHeight()
 	sh, _ := c.nd.m.GetStoreHeight(c.ctx)
@@ -882,6 +1040,22 @@ func (c *caseRun) oracle(di, sh uint64) {
 	}
 	if nd != di {
 		c.fail("reported-differs-from-persisted", fmt.Sprintf("reported %d but the last stored height is %d", di, nd))
+	}
+	// every DA-included mark of a stored block is for a blob the DA layer holds at the marked DA height
+	for h := c.ih; h <= sh; h++ {
+		hd, d, err := c.nd.st.GetBlockData(c.ctx, h)
+		if err != nil {
+			continue
+		}
+		if v, ok := c.nd.m.HeaderCache().GetDAIncludedHeight(hd.Hash().String()); ok && !c.daHas(v, true, hd.Hash().String()) {
+			c.fail("da-mark-without-blob-on-da", fmt.Sprintf("the header of height %d is marked DA-included at DA height %d; the DA layer does not hold it there (anywhere: %v)", h, v, c.daHasAnywhere(true, hd.Hash().String())))
+		}
+		if len(d.Txs) != 0 {
+			commit := d.DACommitment().String()
+			if v, ok := c.nd.m.DataCache().GetDAIncludedHeight(commit); ok && !c.daHas(v, false, commit) {
+				c.fail("da-mark-without-blob-on-da", fmt.Sprintf("the data of height %d is marked DA-included at DA height %d; the DA layer does not hold it there (anywhere: %v)", h, v, c.daHasAnywhere(false, commit)))
+			}
+		}
 	}
 	// soundness of every included height, and of the recorded DA heights
 	for h := c.ih; h <= di && h <= sh; h++ {
@@ -989,9 +1163,13 @@ type caseOut struct {
 	panicked string
 }
 
-func runCase(t *testing.T, mode string, ih uint64, hist []Op, idx int, withKeys bool) (out caseOut) {
+func runCase(t *testing.T, mode string, ih uint64, dc int, hist []Op, idx int, withKeys bool) (out caseOut) {
 	if ih == 0 {
 		ih = 1
+	}
+	if dc < 0 || dc >= len(dirConfigs) {
+		out.err = fmt.Errorf("bad directory configuration %d", dc)
+		return
 	}
 	root, err := os.MkdirTemp("", "c07root")
 	if err != nil {
@@ -1002,7 +1180,7 @@ func runCase(t *testing.T, mode string, ih uint64, hist []Op, idx int, withKeys 
 	synctest.Test(t, func(t *testing.T) {
 		ctx := context.Background()
 		release := make(chan struct{})
-		c := &caseRun{ctx: ctx, mode: mode, ih: ih, srcHdr: map[uint64][]byte{}, srcData: map[uint64][]byte{}, hashID: map[string]uint64{}, commitID: map[string]uint64{}, savedH: map[string]bool{}, savedD: map[string]bool{}}
+		c := &caseRun{ctx: ctx, mode: mode, ih: ih, dc: dc, srcHdr: map[uint64][]byte{}, srcData: map[uint64][]byte{}, hashID: map[string]uint64{}, commitID: map[string]uint64{}, savedH: map[string]bool{}, savedD: map[string]bool{}}
 		defer func() {
 			if x := recover(); x != nil {
 				out.panicked = fmt.Sprint(x)
@@ -1027,12 +1205,12 @@ func runCase(t *testing.T, mode string, ih uint64, hist []Op, idx int, withKeys 
 			return
 		}
 		gen := genesis.NewGenesis("c07", ih, time.Now().UTC(), tsig.Address)
-		if c.nd, err = newNode(ctx, mode, sg, gen, filepath.Join(root, "node"), release); err != nil {
+		if c.nd, err = newNode(ctx, mode, sg, gen, filepath.Join(root, "ut"), dc, release); err != nil {
 			out.err = err
 			return
 		}
 		if mode == "full" {
-			if c.src, err = newNode(ctx, "agg", sg, gen, filepath.Join(root, "src"), release); err != nil {
+			if c.src, err = newNode(ctx, "agg", sg, gen, filepath.Join(root, "src"), 0, release); err != nil {
 				out.err = err
 				return
 			}
@@ -1130,24 +1308,7 @@ func (c *caseRun) coqCase(idx int, withKeys bool) string {
 			keys = append(keys, fmt.Sprintf("(%s, %s)", k, vgen.Str(p.Key)))
 		}
 	}
-	sh, _ := c.nd.m.GetStoreHeight(c.ctx)
-	for h := uint64(1); h <= sh; h++ {
-		hd, _, err := c.nd.st.GetBlockData(c.ctx, h)
-		if err != nil {
-			continue
-		}
-		v, ok := c.nd.m.HeaderCache().GetDAIncludedHeight(hd.Hash().String())
-		hm = append(hm, fmt.Sprintf("(%d, %s)", h, optN(v, ok)))
-	}
-	ids := []int{}
-	for i := range txPool {
-		ids = append(ids, i)
-	}
-	sort.Ints(ids)
-	for _, i := range ids {
-		v, ok := c.nd.m.DataCache().GetDAIncludedHeight(commitOf(i))
-		dm = append(dm, fmt.Sprintf("(%d, %s)", i, optN(v, ok)))
-	}
+	hm, dm = c.markLookups()
 	var deaths []string
 	for _, d := range c.deaths {
 		deaths = append(deaths, fmt.Sprint(d))
@@ -1156,9 +1317,24 @@ func (c *caseRun) coqCase(idx int, withKeys bool) string {
 	for _, o := range c.fobs {
 		fobs = append(fobs, fmt.Sprintf("(%d, %d)", o[0], o[1]))
 	}
-	return fmt.Sprintf("Definition c%d : icase := {| ic_base := %d; ic_ops := %s;\n ic_obs := %s;\n ic_trace := %s;\n ic_death := %s;\n ic_meta := %s;\n ic_hm := %s;\n ic_dm := %s;\n ic_keys := %s;\n ic_full := %s; ic_fops := %s;\n ic_fobs := %s |}.",
+	var aobs, dal, saved []string
+	for _, o := range c.aobs {
+		aobs = append(aobs, fmt.Sprintf("(%d, %d, %d)", o[0], o[1], o[2]))
+	}
+	if c.mode == "agg" {
+		c.nd.da.mu.Lock()
+		for h := uint64(1); h <= c.nd.da.top; h++ {
+			dal = append(dal, vgen.List(c.blobClasses(c.nd.da.heights[h])))
+		}
+		c.nd.da.mu.Unlock()
+	}
+	for _, d := range c.saved {
+		saved = append(saved, vgen.Str(d))
+	}
+	return fmt.Sprintf("Definition c%d : icase := {| ic_base := %d; ic_ops := %s;\n ic_obs := %s;\n ic_trace := %s;\n ic_death := %s;\n ic_meta := %s;\n ic_hm := %s;\n ic_dm := %s;\n ic_keys := %s;\n ic_full := %s; ic_fops := %s;\n ic_fobs := %s;\n ic_cfg := (%s, %s); ic_agg := %s; ic_aops := %s;\n ic_aobs := %s;\n ic_dal := %s;\n ic_saved := %s; ic_bmarks := %s |}.",
 		idx, c.ih-1, vgen.List(c.groups), vgen.List(obs), vgen.List(trace), vgen.List(deaths), vgen.List(meta), vgen.List(hm), vgen.List(dm), vgen.List(keys),
-		vgen.Bool(c.mode == "full"), vgen.List(c.fgroups), vgen.List(fobs))
+		vgen.Bool(c.mode == "full"), vgen.List(c.fgroups), vgen.List(fobs),
+		vgen.Str(dirConfigs[c.dc].Root), vgen.Str(dirConfigs[c.dc].DB), vgen.Bool(c.mode == "agg"), vgen.List(c.agroups), vgen.List(aobs), vgen.List(dal), vgen.List(saved), vgen.List(c.bmarks))
 }
 
 func caseRng(seed int64, c int) *rand.Rand { return rand.New(rand.NewSource(seed*1000003 + int64(c))) }
@@ -1182,6 +1358,7 @@ func TestVerif(t *testing.T) {
 		c    int
 		mode string
 		ih   uint64
+		dc   int
 		hist []Op
 	}
 	var jobs []job
@@ -1190,7 +1367,7 @@ func TestVerif(t *testing.T) {
 		if err := vgen.LoadReplay(e.Replay, &rp); err != nil {
 			t.Fatal(err)
 		}
-		jobs = append(jobs, job{rp.Seed, rp.Case, rp.Mode, rp.IH, rp.History})
+		jobs = append(jobs, job{rp.Seed, rp.Case, rp.Mode, rp.IH, rp.Cfg, rp.History})
 	} else {
 		files, _ := filepath.Glob("../corpus/C07/*.json")
 		if os.Getenv("VERIF_NO_CORPUS") != "" {
@@ -1199,7 +1376,7 @@ func TestVerif(t *testing.T) {
 		for _, f := range files {
 			var rp Replay
 			if vgen.LoadReplay(f, &rp) == nil && rp.Mode != "" {
-				jobs = append(jobs, job{rp.Seed, rp.Case, rp.Mode, rp.IH, rp.History})
+				jobs = append(jobs, job{rp.Seed, rp.Case, rp.Mode, rp.IH, rp.Cfg, rp.History})
 			}
 		}
 		for c := 0; c < e.N; c++ {
@@ -1211,7 +1388,7 @@ func TestVerif(t *testing.T) {
 			if c%10 == 4 || c%10 == 9 { // one aggregator and one full-node case in ten start above height 1
 				ih = 2 + uint64(c%3)
 			}
-			jobs = append(jobs, job{seed: e.Seed, c: c, mode: mode, ih: ih})
+			jobs = append(jobs, job{seed: e.Seed, c: c, mode: mode, ih: ih, dc: -1})
 		}
 	}
 	maxLen := 22
@@ -1227,12 +1404,16 @@ func TestVerif(t *testing.T) {
 		if hist == nil {
 			hist = genHistory(r, j.mode, maxLen)
 		}
-		out := runCase(t, j.mode, j.ih, hist, ji, ji%10 == 0)
+		if j.dc < 0 {
+			j.dc = genCfg(r)
+		}
+		out := runCase(t, j.mode, j.ih, j.dc, hist, ji, ji%10 == 0)
 		if out.err != nil {
 			t.Fatalf("harness error in case %d (seed %d case %d mode %s): %v", ji, j.seed, j.c, j.mode, out.err)
 		}
 		res.Evaluations++
 		res.Count("mode:" + j.mode)
+		res.Count(fmt.Sprintf("config:RootDir=%s,DBPath=%s", dirConfigs[j.dc].Root, dirConfigs[j.dc].DB))
 		if j.ih > 1 {
 			res.Count("history:initial-height-above-1")
 		}
@@ -1240,6 +1421,12 @@ func TestVerif(t *testing.T) {
 			res.Count("op:" + op.K)
 			for _, o := range op.Script {
 				res.Count("da-outcome:" + o.Kind)
+				if o.isErr() && o.Ids > 0 {
+					res.Count("da-outcome:error-with-ids")
+				}
+				if o.isErr() && (o.St > 0 || o.Kind == "acklost") {
+					res.Count("da-outcome:error-but-blobs-kept")
+				}
 			}
 			if op.K == "crash" || op.K == "fault" {
 				res.Count(fmt.Sprintf("%s-after-effects:%d", op.K, op.Kc))
@@ -1258,7 +1445,7 @@ func TestVerif(t *testing.T) {
 		if out.lost {
 			res.Count("history:aggregator-crash-with-unincluded-marks")
 		}
-		rp := Replay{Seed: j.seed, Case: j.c, Mode: j.mode, IH: j.ih, History: hist}
+		rp := Replay{Seed: j.seed, Case: j.c, Mode: j.mode, IH: j.ih, Cfg: j.dc, History: hist}
 		if out.panicked != "" {
 			out.viol = append(out.viol, "panic")
 			out.what = append(out.what, out.panicked)
@@ -1268,7 +1455,7 @@ func TestVerif(t *testing.T) {
 				continue
 			}
 			sh := vgen.Shrink(hist, func(h []Op) bool {
-				o := runCase(t, j.mode, j.ih, h, 0, false)
+				o := runCase(t, j.mode, j.ih, j.dc, h, 0, false)
 				return o.err == nil && hasSig(o, sig)
 			})
 			// then make every crash a plain crash if the failure survives
@@ -1276,7 +1463,7 @@ func TestVerif(t *testing.T) {
 				if (sh[i].K == "crash" || sh[i].K == "fault") && sh[i].Kc != 0 && sig != "reported-height-decreases-across-crash" && sig != "reported-height-decreases-after-write-fault" {
 					cand := append([]Op{}, sh...)
 					cand[i].Kc = 0
-					if o := runCase(t, j.mode, j.ih, cand, 0, false); o.err == nil && hasSig(o, sig) {
+					if o := runCase(t, j.mode, j.ih, j.dc, cand, 0, false); o.err == nil && hasSig(o, sig) {
 						sh = cand
 					}
 				}
@@ -1286,7 +1473,7 @@ func TestVerif(t *testing.T) {
 				for k := 0; k < len(sh[i].Faults); {
 					cand := append([]Op{}, sh...)
 					cand[i].Faults = append(append([]Fault{}, sh[i].Faults[:k]...), sh[i].Faults[k+1:]...)
-					if o := runCase(t, j.mode, j.ih, cand, 0, false); o.err == nil && hasSig(o, sig) {
+					if o := runCase(t, j.mode, j.ih, j.dc, cand, 0, false); o.err == nil && hasSig(o, sig) {
 						sh = cand
 					} else {
 						k++
@@ -1294,7 +1481,7 @@ func TestVerif(t *testing.T) {
 				}
 			}
 			res.Violations = append(res.Violations, vgen.Violation{Signature: sig, What: out.what[vi], Case: ji,
-				Replay: Replay{Seed: j.seed, Case: j.c, Mode: j.mode, IH: j.ih, History: sh}})
+				Replay: Replay{Seed: j.seed, Case: j.c, Mode: j.mode, IH: j.ih, Cfg: j.dc, History: sh}})
 		}
 		if out.panicked != "" {
 			continue
@@ -1310,9 +1497,9 @@ func TestVerif(t *testing.T) {
 		}
 	}
 	res.Distinct = len(distinct)
-	res.Rule = "histories of 4..maxLen operations; even cases on an aggregator (real publishBlock, real submitHeadersToDA/submitDataToDA against a DA double with scripted outcomes: partial acceptance, errors, timeouts, accepted-but-ack-lost), odd cases on a full node: blocks and blobs come from a source aggregator's real producer / submitter; blobs (headers, data, junk; repeats; header and data of a block at the same or at different DA heights, several blocks at one DA height) are posted to the DA double; every scan operation is one RetrieveLoop iteration = the real processNextDAHeaderAndData against the DA double scripted with that iteration's fetch faults (0..11 of: GetIDs error, deadline, Get error after a truthful listing with plain / 'blob: not found' (sentinel or wrapped) / deadline / 'from the future' text; then truthful service), the cursor moved iff it returned nil, and the events it produced are handed to the REAL SyncLoop (headers, then data, each to quiescence), which applies blocks with the event's DA height; blocks also arrive as by P2P (both parts cached, real trySyncNextBlock with the scan cursor as DA height); 35% empty blocks, transaction lists drawn from 3 so that blocks share data commitments; runs of the real DAIncluderLoop under synctest; crashes (no SaveCache) after 0..9 effects (datastore writes / SetFinal calls) of an includer run with the height the dying process reports sampled at that instant, NewManager on the image; faults (effect k+1 of a run fails, the loop returns its error, clean shutdown, restart); clean restarts with SaveCache; one case in five with genesis.InitialHeight 2..4; on the full node the scan cursor m.daHeight and the State.DAHeight read back from the store are compared with the model after every operation; every history is followed by a fault-free quiescence suffix (submit what is pending / scan to the DA tip with sync, include) after which the reported height must equal the height up to which both parts of every block are on the DA double; the committed corpus (harness/corpus/C07) holds the full-node scenarios 'parts at different DA heights, crash after apply', 'P2P block after scanning, crash', 'Get fails after a successful listing'; non-trivial = at least 4 operations and final height >= 1; distinct = distinct projected traces"
+	res.Rule = "histories of 4..maxLen operations; even cases on an aggregator (real publishBlock, real submitHeadersToDA/submitDataToDA against a DA double with scripted ANSWERS per SubmitWithOptions call: ids of all / of a prefix / of no blob with a nil error; an error — generic, ErrTxTimedOut, ErrTxAlreadyInMempool, ErrBlobSizeOverLimit, ErrContextDeadline, context.Canceled — with or without ids next to it (ids of blobs it kept, or of nothing it holds) and with or without the DA layer in fact keeping a prefix of the blobs; one script in a hundred fails 30+ times in a row (maxSubmitAttempts); the model computes the marks, both watermarks and the DA content from the answers (Model/IncluderAgg.v) and all three are compared after every operation / at the end), odd cases on a full node: blocks and blobs come from a source aggregator's real producer / submitter; blobs (headers, data, junk; repeats; header and data of a block at the same or at different DA heights, several blocks at one DA height) are posted to the DA double; every scan operation is one RetrieveLoop iteration = the real processNextDAHeaderAndData against the DA double scripted with that iteration's fetch faults (0..11 of: GetIDs error, deadline, Get error after a truthful listing with plain / 'blob: not found' (sentinel or wrapped) / deadline / 'from the future' text; then truthful service), the cursor moved iff it returned nil, and the events it produced are handed to the REAL SyncLoop (headers, then data, each to quiescence), which applies blocks with the event's DA height; blocks also arrive as by P2P (both parts cached, real trySyncNextBlock with the scan cursor as DA height); 35% empty blocks, transaction lists drawn from 3 so that blocks share data commitments; runs of the real DAIncluderLoop under synctest; crashes (no SaveCache) after 0..9 effects (datastore writes / SetFinal calls) of an includer run with the height the dying process reports sampled at that instant, NewManager on the image; faults (effect k+1 of a run fails, the loop returns its error, clean shutdown, restart); clean restarts = the real SaveCache, then NewManager (LoadCache) on the same directories; every case runs under one of 8 directory configurations (35% the default; RootDir plain / with a space / nested / named 'data' / uncleaned with '..', DBPath 'data' / 'custom' / empty / nested / absolute / with '..'): after every SaveCache the directory below RootDir that holds the cache files is read from disk and compared with the model's, after every new process the cache lookups are compared and (oracle) every mark set before a clean stop must still be set; (oracle) after every operation every DA-included mark of a stored block must be for a blob the DA double holds at the marked height; one case in five with genesis.InitialHeight 2..4; on the full node the scan cursor m.daHeight and the State.DAHeight read back from the store are compared with the model after every operation; every history is followed by a fault-free quiescence suffix (submit what is pending / scan to the DA tip with sync, include) after which the reported height must equal the height up to which both parts of every block are on the DA double; the committed corpus (harness/corpus/C07) holds the full-node scenarios 'parts at different DA heights, crash after apply', 'P2P block after scanning, crash', 'Get fails after a successful listing', 'clean restarts with DBPath outside RootDir', and the aggregator scenarios 'ids next to errors of every class, with and without blobs kept' and 'clean restarts / failing effect between submission and inclusion with a non-default DBPath'; non-trivial = at least 4 operations and final height >= 1; distinct = distinct projected traces"
 	res.Cases = len(cases)
-	header := "From Coq Require Import String NArith List Bool.\nFrom Verif Require Import Base.Keys Model.Includer Model.IncluderScan Check.IncluderCheck."
+	header := "From Coq Require Import String NArith List Bool.\nFrom Verif Require Import Base.Keys Model.Includer Model.IncluderScan Model.IncluderAgg Check.IncluderCheck."
 	defs = append([]string{"Open Scope N_scope."}, defs...)
 	path := filepath.Join(e.Out, "cases_C07.v")
 	if err := vgen.WriteCases(path, header, defs, "icase", cases, "mismatches"); err != nil {
